@@ -140,7 +140,10 @@ def build_model(rng):
     mu = lsl.Var(lsl.Calc(lambda X, b, Z, b2, s: X @ b + Z @ b2 + s, Xv, beta, Zv, b2, shift), name="mu")
     scale = lsl.Calc(jnp.sqrt, sigma2, _name="scale")
     yv = lsl.obs(jnp.asarray(y), lsl.Dist(tfd.Normal, loc=mu, scale=scale), name="y")
-    model = lsl.GraphBuilder().add(yv).add_groups(grp).build_model()
+    # derived quantities that depend on sampled parameters but feed no distribution (predictions, summaries)
+    pred = lsl.Var(lsl.Calc(lambda b, s, b2: jnp.sum(b) * 2.0 + s + jnp.sum(b2 ** 2), beta, sigma2, b2), name="pred")
+    ksq = lsl.Calc(lambda k, t: k ** 2 + jnp.log(t), kv, tau2, _name="k_sq_plus_log_tau2")
+    model = lsl.GraphBuilder().add(yv, pred, ksq).add_groups(grp).build_model()
     return model, grp
 
 
